@@ -206,6 +206,11 @@ def sample_cfg(name: str, rng, tier: str = "quick", small: bool = True) -> dict:
         cfg["size"] = size
     else:
         raise HarnessError(f"unknown env {name}")
+    # location distributions other than the unit-box uniform (documented `loc_distribution` argument):
+    # normal coordinates leave the [min_loc, max_loc] box, which is where bounds "valid for the box" break
+    if name in ("tsp", "cvrp", "sdvrp", "svrp", "op", "pctsp", "spctsp", "pdp", "mtsp", "flp") \
+            and rng.random() < 0.15:
+        cfg["gen"].update(loc_distribution="normal", loc_mean=0.5, loc_std=rng.choice([0.2, 1.0, 3.0]))
     return cfg
 
 
